@@ -95,9 +95,15 @@ impl OodFrame {
     /// Panics if:
     /// * Constraint evaluations have already been set.
     /// * `evaluations` is an empty vector.
+    /// * `evaluations` take up more than 65535 bytes (their length is serialized as a u16).
     pub fn set_constraint_evaluations<E: FieldElement>(&mut self, evaluations: &[E]) {
         assert!(self.evaluations.is_empty(), "constraint evaluations have already been set");
         assert!(!evaluations.is_empty(), "cannot set to empty constraint evaluations");
+        assert!(
+            evaluations.len() * E::ELEMENT_BYTES <= u16::MAX as usize,
+            "constraint evaluations cannot take up more than {} bytes",
+            u16::MAX
+        );
         self.evaluations.write_many(evaluations);
     }
 
